@@ -8,6 +8,7 @@ import TemprenModel.Model.Order
 import TemprenModel.Model.Text
 import TemprenModel.Model.PyRepr
 import Std.Data.HashSet
+import TemprenModel.Model.Bind
 open Tempren Tempren.Proto
 
 def hexNibble (c : Char) : Option Nat :=
@@ -98,6 +99,37 @@ def decSortFile (f : String) : Option SortFile :=
     let l ← decStr l
     pure { rel := parsePath r, size := s, lower := l }
   | _ => none
+
+/-- signature: `<n|T|F>;<param>,<param>…`, param = `<name>:<p|v|k>:<T|F>` -/
+def decSig (f : String) : Option Sig :=
+  match f.splitOn ";" with
+  | [rc, ps] => do
+    let rc ← (if rc = "n" then some none else (decBool rc).map some)
+    let items := if ps = "" then [] else ps.splitOn ","
+    let params ← items.foldr (fun it acc => do
+      let a ← acc
+      match it.splitOn ":" with
+      | [n, k, d] =>
+        let name ← decStr n
+        let kind ← (if k = "p" then some ParamKind.posOrKw else if k = "v" then some ParamKind.varPos
+                    else if k = "k" then some ParamKind.kwOnly else none)
+        let dflt ← decBool d
+        pure ({ name := name, kind := kind, hasDefault := dflt } :: a)
+      | _ => none) (some [])
+    pure { params := params, requireContext := rc }
+  | _ => none
+
+def encBind : BindResult → String
+  | .ok => "ok"
+  | .tooMany => "tooMany"
+  | .unexpected _ => "unexpected"
+  | .multiple _ => "multiple"
+  | .missing _ => "missing"
+
+def encCtx : ContextResult → String
+  | .ok => "ok"
+  | .missing => "ctxMissing"
+  | .forbidden => "ctxForbidden"
 
 def encCountVal : Option CountVal → String
   | none => "E"
@@ -255,6 +287,12 @@ def handle (line : String) : String :=
     match decInt i with
     | some i => encStr (pyIntStr i)
     | none => "bad-op"
+  | ["bind", sig, nargs, kws, ctx] =>
+    match decSig sig, decNat nargs, decStrList kws, decBool ctx with
+    | some sig, some nargs, some kws, some ctx =>
+      encBind (bindCall sig nargs kws) ++ " " ++ encCtx (contextRule sig ctx) ++ " " ++
+        encBool (accepted sig nargs kws ctx) ++ " " ++ encStr (contextMarker sig)
+    | _, _, _, _ => "bad-op"
   | _ => "bad-op"
 
 partial def loop (h : IO.FS.Stream) (out : IO.FS.Stream) : IO Unit := do
